@@ -374,6 +374,30 @@ Proof.
 Qed.
 Print Assumptions C03_second_image_kept.
 
+(* a write REPLACES the content of its destination: whatever the store held before (a longer file, a
+   previous member of the same name in the tar), afterwards the destination holds exactly the dump of the
+   array just written -- so its size is rows x columns x item size and it reads back as that array -- and
+   every other path is unchanged *)
+Theorem C03_write_replaces : forall cast a st (f : fstore) p m r c rd_w rd_h,
+  plain a -> wf_mem m = true -> m_shape m = [r; c] -> (0 < c)%N ->
+  exists bs, write_api cast a m = Written bs /\
+    let f' := fs_write p bs f in
+    fs_read p f' = Some (dump m) /\
+    lenN (dump m) = (r * c * N.of_nat (isz (m_dtype m)))%N /\
+    read_api a st (m_dtype m) (Z.of_N c) rd_w rd_h (dump m)
+    = ROk {| a_dtype := m_dtype m; a_rows := r; a_cols := c; a_elems := m_elems m |} /\
+    forall q, q <> p -> fs_read q f' = fs_read q f.
+Proof.
+  intros cast a st f p m r c rd_w rd_h P W S C.
+  destruct (C03_roundtrip cast a st m r c rd_w rd_h P W S C) as [E1 E2].
+  exists (dump m). split; [exact E1|]. cbv zeta. repeat split.
+  - apply fs_read_same.
+  - rewrite C03_file_size by assumption. rewrite S, prodN_2. reflexivity.
+  - exact E2.
+  - intros q N. apply fs_read_other; assumption.
+Qed.
+Print Assumptions C03_write_replaces.
+
 (* ================================================================== non-vacuity and the repaired defect *)
 Local Open Scope N_scope.
 
